@@ -3,6 +3,7 @@
 //! A panic in code under test is data: it is caught and reported as an outcome, never a tool error.
 
 mod c04;
+mod c05;
 mod c10;
 mod c11;
 mod refcodec;
@@ -22,6 +23,9 @@ fn main() {
     let res = match args[1].as_str() {
         "c04-replay" => c04::replay(rest),
         "c04-record" => c04::record(rest),
+        "c05-replay" => c05::replay(rest),
+        "c05-record" => c05::record(rest),
+        "c05-udp" => c05::udp(rest),
         "c10-replay" => c10::replay(rest),
         "c10-record" => c10::record(rest),
         "c11-replay" => c11::replay(rest),
